@@ -222,6 +222,9 @@ class AdvancedTag(object):
 
         # Check for special "className"
         if name == "className":
+            if value is None:
+                # A value-less class attribute ( e.x. <div class> ) carries no class names
+                value = ''
             value = stripWordsOnly( tostr(value) )
             object.__setattr__(self, '_classNames', [x for x in value.split(' ') if x])
             return value
